@@ -54,7 +54,7 @@ fn fmt_f64(bits: u64) -> String {
     format!("{}", f64::from_bits(bits))
 }
 
-/// expected file text from the Lean model (bit patterns re-formatted with Rust's own `{}`);
+/// expected file text from the Lean model (coordinates printed by the Lean model of `Display`);
 /// second component: some record has a non-nucleotide byte (whole-sequence CGR refuses)
 pub fn expected_text(c: &CgrFileCase, model: &Model) -> Result<(Vec<u8>, bool), String> {
     let reqs: Vec<String> = c.recs.iter().map(|r| match c.k {
@@ -73,13 +73,20 @@ pub fn expected_text(c: &CgrFileCase, model: &Model) -> Result<(Vec<u8>, bool), 
         if g[0] != "ok" || g.len() < 2 {
             return Err(format!("model failed: {}", a));
         }
+        // the row text comes from the Lean model of `Display` (KT.cgrRowText / KT.oligoCgrRowText); it is cross-checked against
+        // the same bit patterns printed by Rust's own formatter, so a disagreement of the Display model is told apart
         let pts: Vec<String> = if g[1].is_empty() { vec![] } else {
             g[1].split(',').map(|p| {
                 let v: Vec<String> = p.split(':').map(|x| fmt_f64(x.parse().unwrap())).collect();
                 format!("({})", v.join(","))
             }).collect()
         };
-        out.extend(format!("{}\n", pts.join(" ")).into_bytes());
+        let rust_row = format!("{}\n", pts.join(" ")).into_bytes();
+        let model_row = unhex(g[if c.k.is_none() { 3 } else { 2 }.min(g.len() - 1)]);
+        if model_row != rust_row {
+            return Err(format!("Lean Display model and Rust formatter disagree on a row: model \"{}\" vs \"{}\"", trunc(&show(&model_row), 200), trunc(&show(&rust_row), 200)));
+        }
+        out.extend(model_row);
     }
     Ok((out, bad))
 }
